@@ -35,7 +35,75 @@ EOLC = r'#[^\n]*'
 
 def plan(tier):
     n = 400 if tier == 'quick' else 6000
-    return [dict(kind='layout', n=n) for _ in range(12)] + [dict(kind='layers', n=max(30, n // 3)) for _ in range(4)]
+    return [dict(kind='layout', n=n) for _ in range(12)] + [dict(kind='layers', n=max(30, n // 3)) for _ in range(4)] + [dict(kind='legacy', n=1)]
+
+
+LEGACY_NAMES = ['NAME', 'Name', 'name', 'nAME', 'N', 'n1']
+LEGACY_STYLES = ['legacy-tatsumasu', 'rule-source', 'rule-source-private']
+LEGACY_LAYOUTS = ['=b', '= b', '=\tb', '=\n  b', ' =b ', '=  b\n', '']
+
+
+def legacy_check(name, style, text):
+    """hand-written parser classes in the documented styles (methods `_NAME_` with @tatsumasu on a Parser subclass; a rule source
+    with @rule methods, public or private) against the model compiled from the equivalent grammar"""
+    import tatsu
+    from tatsu.contexts import Ctx
+    from tatsu.decorators import rule
+    from tatsu.exceptions import FailedParse
+    from tatsu.parsing import Parser, tatsumasu
+    model = tatsu.compile(f"start: '=' {name} $ ;\n\n{name}: /[a-z]+/ ;\n")
+    if style == 'legacy-tatsumasu':
+        def _start_(self):
+            self._token('=')
+            getattr(self, f'_{name}_')()
+            self._check_eof()
+
+        def _sub_(self):
+            self._pattern(r'[a-z]+')
+        _start_.__name__ = '_start_'
+        _sub_.__name__ = f'_{name}_'
+        cls = type('VfLegacy', (Parser,), {'_start_': tatsumasu()(_start_), f'_{name}_': tatsumasu()(_sub_)})
+        parse = lambda t: cls().parse(t, start='start')   # noqa: E731
+    else:
+        mname = ('_' + name) if style == 'rule-source-private' else name
+
+        def start(self, ctx: Ctx):
+            ctx.token('=')
+            getattr(self, mname)(ctx)
+            ctx.eofcheck()
+
+        def sub(self, ctx: Ctx):
+            ctx.pattern(r'[a-z]+')
+        sub.__name__ = mname
+        src = type('VfRules', (), {'start': rule(start), mname: rule(sub)})
+        parse = lambda t: Parser(src()).parse(t, start='start')   # noqa: E731
+    try:
+        want = ('ok', tu.canon(model.parse(text)))
+    except FailedParse:
+        want = ('fail',)
+    try:
+        got = ('ok', tu.canon(parse(text)))
+    except FailedParse:
+        got = ('fail',)
+    except Exception as e:
+        got = ('exc', type(e).__name__, str(e)[:100])
+    if got != want:
+        return dict(bucket='legacy:' + style, oracle='a hand-written parser class treats an upper-case rule like the compiled model: no whitespace is skipped at its entry',
+                    rule=name, input=text, model=want, observed=got)
+    return None
+
+
+def run_legacy(sh):
+    for name in LEGACY_NAMES:
+        reset_tatsu_state()
+        for style in LEGACY_STYLES:
+            for text in LEGACY_LAYOUTS:
+                d = legacy_check(name, style, text)
+                sh.case(('legacy', name, style, text), name[:1].isupper() and text[1:2].isspace(), ['legacy-style parser classes', 'legacy:' + style],
+                        sample=dict(rule=name, style=style, input=text))
+                if d is not None:
+                    sh.fail(d['bucket'], dict(kind='legacy', name=name, style=style, input=text), d)
+    sh.exhaustive['hand-written parser classes: 6 rule names x 3 styles x 7 layouts'] = True
 
 
 def gen_config(rnd):
@@ -196,6 +264,28 @@ def check_layout(rules, cfg, texts, model=None):
         o = outs[name]
         if o[0] == 'exc':
             return dict(bucket=f'exc:{o[1]}', oracle='parse returns or raises a parse failure', layout=name, input=t, observed=o), info
+    # the same settings handed over as a configuration object, and through tatsu.parse(): directives must survive both
+    try:
+        from tatsu.config import ParserConfig
+        import tatsu
+        with watchdog(15):
+            for name, t in texts.items():
+                via_cfg = tu.parse_wrapped(model, t, config=ParserConfig(**settings))
+                if via_cfg != outs[name]:
+                    return dict(bucket='route:config-object', oracle='model.parse(text, config=ParserConfig(**settings)) == model.parse(text, **settings)',
+                                layout=name, input=t, settings=settings, by_settings=outs[name], by_config=via_cfg), info
+            gtext_full = tu.wrapped_text(grammar_text(rules, directives), start)
+            try:
+                a = tatsu.parse(gtext_full, texts['base'], start='VF_WRAP', **settings)
+                via_api = ('ok', len(texts['base']) - len(a['rest']), tu.canon(a['v']))
+            except Exception as e:
+                from tatsu.exceptions import FailedParse
+                via_api = ('fail', type(e).__name__, e.pos) if isinstance(e, FailedParse) else ('exc', type(e).__name__, str(e)[:100])
+            if via_api[:2] != outs['base'][:2] or (via_api[0] == 'ok' and via_api != outs['base']):
+                return dict(bucket='route:tatsu.parse', oracle='tatsu.parse(grammar, text, **settings) == compile(grammar).parse(text, **settings)',
+                            input=texts['base'], settings=settings, by_model=outs['base'], by_api=via_api), info
+    except CaseTimeout:
+        pass
     # (a) metamorphic, reference-free.  consumed length differs by construction; compare accept + AST
     b, v = outs['base'], outs['varied']
     info['base'] = b[0]
@@ -366,10 +456,14 @@ def run_layers(sh, n):
 def run_shard(sh, kind, n):
     if kind == 'layout':
         return run_layout(sh, n)
+    if kind == 'legacy':
+        return run_legacy(sh)
     return run_layers(sh, n)
 
 
 def replay(case):
+    if case.get('kind') == 'legacy':
+        return legacy_check(case['name'], case['style'], case['input'])
     if case.get('kind') == 'layers':
         d, _ = check_layers(case['rules'], case['setting'], case['layers'], case['input'])
         return d
@@ -378,6 +472,8 @@ def replay(case):
 
 
 def shrink_candidates(case):
+    if case.get('kind') == 'legacy':
+        return
     rules = [(n, tup(x)) for n, x in case['rules']]
     if case.get('kind') == 'layers':
         text = case['input']
